@@ -46,7 +46,8 @@ def main():
             'name': 'verus-units', 'path': 'vf/',
             'serves_properties': [c['property_id'] for c in checks],
             'kind_free_text': 'extract real items from /repo -> lower (logged rules) -> weave contracts from units/*.rs -> verus single-file '
-                              '-> attribute failed clauses to properties -> replay search; vacuity twin and assumption scan on every run',
+                              '-> attribute failed clauses to properties -> replay search; vacuity twin and assumption scan on every run; '
+                              'bounded stand-ins (replay/src/bounded.rs, labelled bounded) for the driver functions out of reach',
         }],
         'checks': checks,
         'not_applicable': na,
